@@ -440,6 +440,7 @@ class Repo:
             self.modules[name] = Module(self, name, p, is_pkg)
         self._inline_named_constants()
         self._inline_class_tuples()
+        self._inline_type_flags()
         self._positional_calls()
         self._inline_private_helpers()
         self._flatten_genexp_loops()
@@ -453,6 +454,62 @@ class Repo:
             for c in m.classes.values():
                 self._class_index.setdefault(c.name, []).append(c)
         self.dynamic_inventory = self._dynamic_inventory()
+
+    def _inline_type_flags(self):
+        """`is_point = isinstance(a, Point)` ... `if is_point and isinstance(b, Point):` -- a local bound ONCE to a type test
+        (`isinstance(x, T)`, `x is None`, `x is not None`, or `not` of one) of a plain name x that is not re-bound afterwards is
+        read as the test itself where it is used, so that the type inference narrows x in the branch as it does for the
+        test written in place."""
+        import copy
+        for fi in self.functions(include_visualization=False):
+            stores = {}
+            for n in ast.walk(fi.node):
+                if isinstance(n, ast.Name) and isinstance(n.ctx, (ast.Store, ast.Del)):
+                    stores.setdefault(n.id, []).append(n)
+            flags = {}
+            for st in ast.walk(fi.node):
+                if not (isinstance(st, ast.Assign) and len(st.targets) == 1 and isinstance(st.targets[0], ast.Name)):
+                    continue
+                nm = st.targets[0].id
+                if len(stores.get(nm, [])) != 1 or nm in fi.params:
+                    continue
+                v = st.value
+                core = v.operand if isinstance(v, ast.UnaryOp) and isinstance(v.op, ast.Not) else v
+                subj = None
+                if isinstance(core, ast.Call) and isinstance(core.func, ast.Name) and core.func.id == "isinstance" and len(core.args) == 2 \
+                        and isinstance(core.args[0], ast.Name) and not core.keywords:
+                    subj = core.args[0].id
+                elif isinstance(core, ast.Compare) and len(core.ops) == 1 and isinstance(core.ops[0], (ast.Is, ast.IsNot)) \
+                        and isinstance(core.left, ast.Name) and isinstance(core.comparators[0], ast.Constant) and core.comparators[0].value is None:
+                    subj = core.left.id
+                if subj is None:
+                    continue
+                # the tested name must not be re-bound after the flag is set (positions in the source)
+                pos = (st.lineno, st.col_offset)
+                if any((x.lineno, x.col_offset) > pos for x in stores.get(subj, [])):
+                    continue
+                # ... and the flag is not set inside a loop (one evaluation per use would differ)
+                flags[nm] = (v, pos)
+            if not flags:
+                continue
+
+            class Sub(ast.NodeTransformer):
+                def visit_Name(self, n):
+                    f = flags.get(n.id)
+                    if f is not None and isinstance(n.ctx, ast.Load) and (n.lineno, n.col_offset) > f[1]:
+                        return ast.copy_location(copy.deepcopy(f[0]), n)
+                    return n
+            in_loop = set()
+            for lp in ast.walk(fi.node):
+                if isinstance(lp, (ast.For, ast.While)):
+                    for x in ast.walk(lp):
+                        if isinstance(x, ast.Assign) and len(x.targets) == 1 and isinstance(x.targets[0], ast.Name) and x.targets[0].id in flags:
+                            in_loop.add(x.targets[0].id)
+            for nm in in_loop:
+                flags.pop(nm, None)
+            if flags:
+                Sub().visit(fi.node)
+                ast.fix_missing_locations(fi.node)
 
     def _inline_class_tuples(self):
         """`isinstance(x, _GEO_TYPES)` with  _GEO_TYPES = (Point, Line, ...)  bound once at module level (never re-bound) is read as
